@@ -347,6 +347,18 @@ pub fn plan(tier: &str) -> Plan {
         let b: vsched::Body = if V2 { Arc::new(|| Box::pin(async { Outcome { key: "wrong build".into(), violations: vec!["MACHINERY: unit scheduled on the wrong build".into()] } })) } else { subscribe_race_body() };
         units.push(Unit::explore_split(Job::new("v1/subscribe-vs-publish".to_string(), fine, Some(bound), b), 4));
     }
+    // v2: a subscriber that stops in the middle of a batch, i.e. between two sends of the fan-out task (which is
+    // preemptible before each of its sends here); the subscribers behind it still get the whole batch
+    {
+        let fine = ExecCfg { filter: Some(Arc::new(|k, l, t: &vsched::TaskInfo| k == vsched::PointKind::Channel && l == "mpsc.send" && t.role == "lib")), ..Default::default() };
+        for (n, stop_after) in [(3u32, 1usize), (4, 2)] {
+            let sc = Sc { n, late_at: 0, stop_after, slow: false, publisher_yields: false, instant: false, solo: false, twice: false };
+            let b: vsched::Body = if V2 { body(sc, true) } else { Arc::new(|| Box::pin(async { Outcome { key: "wrong build".into(), violations: vec!["MACHINERY: unit scheduled on the wrong build".into()] } })) };
+            let mut u = Unit::explore_split(Job::new(format!("v2/stop-mid-batch/n{n}-stop{stop_after}"), fine.clone(), Some(bound), b), 4);
+            u.exe_suffix = Some("-v2");
+            units.push(u);
+        }
+    }
     for build_v2 in [false, true] {
         for sc in &scs {
             let name = format!("{}/n{}-late{}-stop{}-slow{}-yield{}{}", if build_v2 { "v2" } else { "v1" }, sc.n, sc.late_at, sc.stop_after, sc.slow, sc.publisher_yields, if sc.instant { "-instant" } else if sc.solo { "-solo" } else if sc.twice { "-twice" } else { "" });
